@@ -1,3 +1,4 @@
+import E3fpVerif.Gen.Decisions
 /-!
 # Model of `ConformerGenerator.filter_conformers` and of the generator object's target resolution
 
@@ -51,12 +52,48 @@ def filterConformers (n : Nat) (E : Nat → Rat) (rmsd : Nat → Nat → Rat) (f
   { accepted := acc, energies := acc.map E,
     rmsds := acc.map (fun a => acc.map (fun b => if a = b then 0 else rmsd a b)) }
 
-/-- `get_num_conformers` -/
+/-- the documented reading of `get_num_conformers`: 50 / 200 / 300 conformers for fewer than 8, 8 to 12, more than 12
+rotatable bonds.  The function the model *runs* is `Gen.genNumConf`, translated from the source on every check;
+`Props/C13.genNumConf_spec` proves the two equal. -/
 def autoNumConf (rotatable : Nat) : Nat := if rotatable < 8 then 50 else if rotatable ≤ 12 then 200 else 300
 
-/-- target and `first` as resolved for one molecule (never stored back on the generator) -/
+/-- target and `first` as resolved for one molecule -/
 def resolveTargets (numConf first : Int) (rotatable : Nat) : Nat × Nat :=
-  let target := if numConf = -1 then autoNumConf rotatable else numConf.toNat
+  let target := if numConf = -1 then Gen.genNumConf rotatable else numConf.toNat
   (target, if first = -1 then target else first.toNat)
+
+/-! ## the generator *object*: options set by `__init__`, per-molecule targets written by `embed_molecule`
+and read by `filter_conformers` / reported by `generate_conformers` -/
+
+structure CGen where
+  numConf : Int            -- `self.num_conf`  (option; -1 = automatic)
+  first : Int              -- `self.first`     (option; -1 = all)
+  pool : Nat               -- `self.pool_multiplier`
+  maxConformers : Int      -- `self.max_conformers`   (state)
+  firstConformers : Int    -- `self.first_conformers` (state)
+  deriving Repr, DecidableEq
+
+/-- `ConformerGenerator.__init__` (arguments already validated: -1 or positive) -/
+def CGen.new (numConf first : Int) (pool : Nat) : CGen := ⟨numConf, first, pool, numConf, first⟩
+
+/-- the bookkeeping of `embed_molecule` for a molecule with `rot` rotatable bonds: the new object state and the number of
+conformers asked of RDKit's embedding -/
+def CGen.embed (g : CGen) (rot : Nat) : CGen × Int :=
+  let mx : Int := if g.numConf = -1 then (Gen.genNumConf rot : Nat) else g.numConf
+  let fc : Int := if g.first = -1 then mx else g.first
+  ({ g with maxConformers := mx, firstConformers := fc }, mx * g.pool)
+
+/-- what one `generate_conformers` call uses: (pool size requested, target reported, `first` used by the filter) -/
+def CGen.generate (g : CGen) (rot : Nat) : CGen × (Int × Int × Int) :=
+  let (g', n) := g.embed rot
+  (g', (n, g'.maxConformers, g'.firstConformers))
+
+/-- a history of molecules (by rotatable-bond count) through one generator object -/
+def CGen.runMols (g : CGen) : List Nat → CGen × List (Int × Int × Int)
+  | [] => (g, [])
+  | r :: rs =>
+    let (g1, a) := g.generate r
+    let (g2, as) := g1.runMols rs
+    (g2, a :: as)
 
 end E3fpVerif
